@@ -10,6 +10,8 @@ REPLAY = ("TraceTotality", TRACE_CFG)
 
 
 def signature(ev):
+    if ev["op"] == "loadp":
+        return "C10|load-with-notebook|shape=%s|%s" % (ev["shape"], ev["outcome"])
     if ev["op"] == "load":
         return "C10|load|shape=%s|text=%s|%s" % (ev["shape"], ev["text"] if ev["shape"].startswith("valid") or ev["shape"] == "hugelist" else "-", ev["outcome"])
     note = ev.get("note", "")
